@@ -505,6 +505,13 @@ func (a *APK) ResolveWorld(ctx context.Context) (toInstall []*RepositoryPackage,
 	// For other architectures we're building (if any), we want to disqualify any packages not present in all archs.
 	allArchs := map[string][]NamedIndex{}
 	for otherArch, otherAPK := range a.ByArch {
+		if otherAPK == a {
+			// The resolver was built from these very index objects; loading them a second
+			// time may parse them afresh (an index served without an ETag is never cached),
+			// and disqualifications are recorded per package object.
+			allArchs[otherArch] = indexes
+			continue
+		}
 		indexes, err := otherAPK.GetRepositoryIndexes(ctx, a.ignoreSignatures)
 		if err != nil {
 			return toInstall, conflicts, fmt.Errorf("getting indexes for %q sibling: %w", otherArch, err)
